@@ -1961,7 +1961,7 @@ def spec_link_footnotes(ctx, make_exe):
     total = 0
     import summaries
     orig = summaries.summarize
-    for k in (0, 1, 2):
+    for k in ((0, 1, 2, 3, 5, 8) if ctx.tier == "thorough" else (0, 1, 2)):
         links = VVec([VOpaque("String", "link%d" % i) for i in range(k)])
         for which in ("start", "end"):
             if which == "end" and k == 0:
@@ -2103,7 +2103,7 @@ def spec_shallow_empty_sound(ctx, make_exe):
     orig = summaries.summarize
     total = 0
     for kind in one + ["Link", "Ol", "Header", "Table", "TableCell", "TableBody", "TableRow"]:
-        for k in (0, 1, 2):
+        for k in ((0, 1, 2, 3, 4) if ctx.tier == "thorough" else (0, 1, 2)):
             if kind in ("Table", "TableCell", "TableBody", "TableRow") and k != 1:
                 continue
             exe = make_exe(loop_bound=6)
@@ -2589,8 +2589,9 @@ def spec_fmt_links_wrap(ctx, make_exe):
     import summaries
     f = the(ctx.find(r"::fmt_links$", debug=["self", "links"]), "SubRenderer::fmt_links")
     total = 0
-    for piece_lens in ([2], [1, 2], [2, 2]):
-        exe = make_exe(loop_bound=16, timeout_ms=20000)
+    shapes_ = [[2], [1, 2], [2, 2]] + ([[3], [3, 2], [2, 3], [1, 1, 2]] if ctx.tier == "thorough" else [])
+    for piece_lens in shapes_:
+        exe = make_exe(loop_bound=24, timeout_ms=20000)
         m = wrapmodel.WrapModel(ctx, exe)     # only for its TaggedLine / char contracts
         m.install(hard_wrap="mir")
         st = State()
@@ -3039,6 +3040,13 @@ def spec_columns_join(ctx, make_exe):
         for b_ in two:
             scen.append(([a_, b_], "border"))
     scen += [(["T", "TT"], "none"), (["TT", "T"], "text"), (["T", "LTL", "TT"], "border"), (["TL", "T", "LT"], "border"), (["TT", "", "T"], "none")]
+    if ctx.tier == "thorough":
+        three = ["T", "LTL", "TL", ""]
+        for a_ in three:
+            for b_ in three:
+                for c_ in three:
+                    scen.append(([a_, b_, c_], "border"))
+        scen += [(["TTT", "T"], "border"), (["LTTL", "TT"], "border"), (["T", "T", "T", "T"], "border")]
     for (shapes, prev_kind) in scen:
         for collapse_v in (True, False):
             f, exe, ws, collapse, draw, prevw, outs = _run_columns(ctx, make_exe, shapes, prev_kind, collapse_v)
@@ -3131,8 +3139,8 @@ def spec_computed_style_sources(ctx, make_exe):
     orig = summaries.summarize
     total = 0
     ATTRS = ["style", "color", "bgcolor", "class"]
-    for n_attrs in (0, 1, 2):
-        exe = make_exe(inline=[r"<Importance as PartialEq>::eq$", r"<css::Importance as PartialEq>::eq$"], loop_bound=10)
+    for n_attrs in ((0, 1, 2, 3) if ctx.tier == "thorough" else (0, 1, 2)):
+        exe = make_exe(inline=[r"<Importance as PartialEq>::eq$", r"<css::Importance as PartialEq>::eq$"], loop_bound=12)
         st = State()
         use_doc = exe.fresh("bool", "use_doc_css")
 
@@ -3144,8 +3152,9 @@ def spec_computed_style_sources(ctx, make_exe):
         kinds = [exe.fresh("u8", "attr%d.name" % k) for k in range(n_attrs)]
         for kv in kinds:
             st.pc.append(z3.ULT(kv.e, len(ATTRS)))
-        if n_attrs == 2:
-            st.pc.append(kinds[0].e != kinds[1].e)      # the parser keeps one attribute per name
+        for i_ in range(n_attrs):
+            for j_ in range(i_ + 1, n_attrs):
+                st.pc.append(kinds[i_].e != kinds[j_].e)      # the parser keeps one attribute per name
         attrs = VVec([VAgg("Attribute", None, [VAgg("QualName", None, [VOpaque("Option<Prefix>", "pfx"), VOpaque("Namespace", "ns"), VOpaque("Atom", "attrname%d" % k)]),
                                                 VOpaque("Tendril", "attrvalue%d" % k)]) for k in range(n_attrs)])
         node = VAgg("Node", None, [VOpaque("Cell", "parent"), VOpaque("RefCell", "children"),
